@@ -31,7 +31,11 @@ int main(int argc, char **argv)
 				snprintf(after, sizeof(after), "%s", jwt_get_crypto_ops());
 				printf("[\"O\",\"name\","); vh_put_jstr(stdout, NAMES[i]); printf(",\"%s\",%d,\"%s\",%d]\n", before, rc, after, (int)jwt_get_crypto_ops_t());
 			}
-			for (int id = -2; id <= 7; id++) {
+			static const int IDS[] = { -2, -1, 0, 1, 2, 3, 4, 5, 6, 7, 8, 9, 10, 11, 16, 17, 18, 33, 34, 129, 130, 255, 256, 257, 258, 513, 514, 65537, 65538,
+				0x1000001, 0x1000002, 0x40000001, 0x40000002, -6, -7, -14, -15, -254, -255, -65534, -65535, 919192, 919193, 919194,
+				INT32_MAX, INT32_MAX - 5, INT32_MAX - 6, INT32_MIN, INT32_MIN + 1, INT32_MIN + 2 };
+			for (size_t q = 0; q < sizeof(IDS) / sizeof(IDS[0]); q++) {
+				int id = IDS[q];
 				char before[32], after[32];
 				int rc;
 				vh_set_prov(startp);
